@@ -35,17 +35,26 @@ func RaceWorker(reps int) {
 			}
 			base := filepath.Join(tmp, "base")
 			os.Mkdir(base, 0o777)
-			s := &fsstore.Store{}
-			if err := s.InitDefaults(base); err != nil {
-				panic(err)
+			nst := h.Stores
+			if nst < 1 {
+				nst = 1
+			}
+			var stores []*fsstore.Store
+			for i := 0; i < nst; i++ {
+				st := &fsstore.Store{}
+				if err := st.InitDefaults(base); err != nil {
+					panic(err)
+				}
+				stores = append(stores, st)
 			}
 			var wg sync.WaitGroup
 			var mu sync.Mutex
 			acked := map[string]bool{}
 			var bad []string
 			start := make(chan struct{})
-			for _, ops := range h.Threads {
+			for ti, ops := range h.Threads {
 				ops := ops
+				s := stores[ti%len(stores)]
 				wg.Add(1)
 				go func() {
 					defer wg.Done()
